@@ -61,9 +61,10 @@ cUrlVar2  == <<"h","t","t","p",":","/","/","h","/","{","v","}","/","{","v","}">>
 cPatOk    == <<"a","+">>
 cPatBad   == <<"(","a">>
 cExpr     == <<"{","$","r","e","q","u","e","s","t",".","b","o","d","y","#","/","u","}">>
+cUrlBad   == <<":","/","/","h">>        \* no scheme before the colon: not a URI reference (RFC 3986), refused by net/url
 CharVocab == {cExt, cBogus, cDescr, cPathP, cPathQ, cPathNoSl, cPathId, cPathK, cPathIdK, cPathQId,
               cNameS, cNameT, cNameR, cNameR1, cNameDot, cNameSp, cNameDol, cEmpty, cNameSl, cNameUni, cName1, cNameDots,
-              cNameDash, cNameUnd, cNameMix, cNameDig, cExtUp, cExtBare, cPathVar, cPathEV, cUrlPlain, cUrlVar, cUrlVar2, cUrlOpen, cPatOk, cPatBad, cExpr}
+              cNameDash, cNameUnd, cNameMix, cNameDig, cExtUp, cExtBare, cPathVar, cPathEV, cUrlPlain, cUrlVar, cUrlVar2, cUrlOpen, cPatOk, cPatBad, cExpr, cUrlBad}
 
 (* constant table (evaluated once by TLC): the strings of the vocabulary with their characters *)
 VocabTab == {[s |-> Join(cs), cs |-> cs] : cs \in CharVocab}
@@ -97,7 +98,9 @@ Blank(cs, inv) ==
 NormTemplate(cs) == Blank(cs, FALSE)
 
 (*--------------------------- containment graph ---------------------------*)
-Methods == {"get", "put", "post", "delete", "options", "head", "patch", "trace"}
+(* the operations of a Path Item as the library knows them: those of OpenAPI 3.0.3 and connect (PathItem.Connect is *)
+(* read, written, routed and validated like the others; a Path Item with a connect operation is accepted)          *)
+Methods == {"get", "put", "post", "delete", "options", "head", "patch", "trace", "connect"}
 Sections == {"schemas", "parameters", "headers", "requestBodies", "responses", "securitySchemes",
              "examples", "links", "callbacks"}
 SectionOf(kind) == CASE kind = "schema" -> "schemas" [] kind = "parameter" -> "parameters"
@@ -152,6 +155,7 @@ EdgesOf(kind) ==
                           E("oneOf", "arr", "schema", TRUE), E("anyOf", "arr", "schema", TRUE),
                           E("not", "one", "schema", TRUE), E("externalDocs", "one", "externalDocs", FALSE),
                           E("discriminator", "one", "discriminator", FALSE), E("xml", "one", "xml", FALSE)}
+     [] kind = "link" -> {E("server", "one", "server", FALSE)}
      [] kind = "securityScheme" -> {E("flows", "one", "oauthFlows", FALSE)}
      [] kind = "oauthFlows" -> {E("implicit", "one", "flowImplicit", FALSE), E("password", "one", "flowPassword", FALSE),
                           E("clientCredentials", "one", "flowClient", FALSE),
@@ -223,17 +227,40 @@ Deref(root, x, kind) == IF IsRef(x) /\ Resolves(root, x, SectionOf(kind)) THEN T
 (* does a JSON value conform to a schema (the fragment the universe uses: type, items, properties, required) *)
 TypeTag(ty) == CASE ty = "string" -> "s" [] ty = "integer" -> "n" [] ty = "number" -> "n"
                  [] ty = "boolean" -> "b" [] ty = "array" -> "a" [] ty = "object" -> "o" [] OTHER -> "?"
-RECURSIVE Conforms(_, _, _)
-Conforms(sch0, val, root) ==
+(* mode: "req" the value travels in a request, "res" in a response, "any" neither is known.  readOnly: the    *)
+(* property "MAY be sent as part of a response but SHOULD NOT be sent as part of the request", and when it is  *)
+(* required "the required will take effect on the response only"; writeOnly the other way round (OAS 3.0.3).   *)
+PropFlag(sch, k, flag, root) ==
+   Has(sch, "properties") /\ IsO(Get(sch, "properties")) /\ Has(Get(sch, "properties"), k)
+   /\ LET ps == Deref(root, Get(Get(sch, "properties"), k), "schema") IN IsO(ps) /\ IsTrue(ps, flag)
+Barred(sch, k, mode, root) == \/ mode = "req" /\ PropFlag(sch, k, "readOnly", root)
+                              \/ mode = "res" /\ PropFlag(sch, k, "writeOnly", root)
+RECURSIVE ConformsM(_, _, _, _)
+ConformsM(sch0, val, root, mode) ==
    LET sch == Deref(root, sch0, "schema") IN
    IF ~IsO(sch) \/ IsRef(sch) THEN TRUE
    ELSE /\ HasStr(sch, "type") => (TypeTag(StrOf(sch, "type")) = "?" \/ TypeTag(StrOf(sch, "type")) = val.t)
-        /\ (val.t = "a" /\ Has(sch, "items")) => \A i \in DOMAIN val.a : Conforms(Get(sch, "items"), val.a[i], root)
+        /\ (val.t = "a" /\ Has(sch, "items")) => \A i \in DOMAIN val.a : ConformsM(Get(sch, "items"), val.a[i], root, mode)
         /\ (val.t = "o" /\ Has(sch, "properties") /\ IsO(Get(sch, "properties"))) =>
               \A i \in DOMAIN val.f : Has(Get(sch, "properties"), val.f[i].k)
-                                        => Conforms(Get(Get(sch, "properties"), val.f[i].k), val.f[i].v, root)
+                                        => /\ ConformsM(Get(Get(sch, "properties"), val.f[i].k), val.f[i].v, root, mode)
+                                           /\ ~Barred(sch, val.f[i].k, mode, root)
         /\ (val.t = "o" /\ Has(sch, "required") /\ IsA(Get(sch, "required"))) =>
-              \A i \in DOMAIN Get(sch, "required").a : Has(val, Get(sch, "required").a[i].s)
+              \A i \in DOMAIN Get(sch, "required").a :
+                 Has(val, Get(sch, "required").a[i].s) \/ Barred(sch, Get(sch, "required").a[i].s, mode, root)
+Conforms(sch, val, root) == ConformsM(sch, val, root, "any")
+
+(* the mode of a place: given by the innermost Request Body / Response Object that contains it *)
+ReqEdges == {<<"operation", "requestBody">>, <<"components", "requestBodies">>}
+ResEdges == {<<"operation", "responses">>, <<"components", "responses">>}
+RECURSIVE ModeOf(_)
+ModeOf(via) == IF via = <<>> THEN "any"
+               ELSE IF via[Len(via)] \in ReqEdges THEN "req"
+               ELSE IF via[Len(via)] \in ResEdges THEN "res"
+               ELSE ModeOf(SubSeq(via, 1, Len(via) - 1))
+
+(* a URL that is not even a URI reference: nothing before the first colon (within the vocabulary) *)
+BadUrl(u) == Analysable(u) /\ IsPrefix(<<":">>, CharsOf(u))
 
 (* parameter serialisation table of OpenAPI 3.0 *)
 DefaultStyle(in) == IF in \in {"query", "cookie"} THEN "form" ELSE "simple"
@@ -249,15 +276,15 @@ LegalStyle(in, style, explode) ==
 MemberCount(o, key) == IF Has(o, key) /\ IsO(Get(o, key)) THEN Len(Get(o, key).f) ELSE 0
 
 (* rules shared by everything that carries schema + example(s): parameter, header, media type *)
-ExampleRules(o, root) ==
+ExampleRules(o, root, mode) ==
    LET hasSchema == Has(o, "schema") /\ IsO(Get(o, "schema")) IN
    (IF Has(o, "example") /\ Has(o, "examples") THEN {"example_and_examples"} ELSE {})
-   \cup (IF hasSchema /\ Has(o, "example") /\ ~Conforms(Get(o, "schema"), Get(o, "example"), root)
+   \cup (IF hasSchema /\ Has(o, "example") /\ ~ConformsM(Get(o, "schema"), Get(o, "example"), root, mode)
          THEN {"example_mismatch"} ELSE {})
    \cup (IF hasSchema /\ Has(o, "examples") /\ IsO(Get(o, "examples"))
             /\ \E i \in DOMAIN Get(o, "examples").f :
                   LET ex == Deref(root, Get(o, "examples").f[i].v, "example") IN
-                  IsO(ex) /\ ~IsRef(ex) /\ Has(ex, "value") /\ ~Conforms(Get(o, "schema"), Get(ex, "value"), root)
+                  IsO(ex) /\ ~IsRef(ex) /\ Has(ex, "value") /\ ~ConformsM(Get(o, "schema"), Get(ex, "value"), root, mode)
          THEN {"examples_mismatch"} ELSE {})
 
 ParamLikeRules(o, in) ==
@@ -286,7 +313,7 @@ OpsOf(pi) == {m \in Methods : Has(pi, m) /\ IsO(Get(pi, m))}
 PathKeys(o) == {k \in Keys(o) : ~IsExt(k)}
 
 (* the rules whose subject is the object itself; result: set of rule names *)
-LocalRules(kind, o, root) ==
+LocalRules(kind, o, root, mode) ==
    CASE kind = "root" ->
           (IF ~HasStr(o, "openapi") THEN {"openapi_missing"} ELSE {})
           \cup (IF ~(Has(o, "info") /\ IsO(Get(o, "info"))) THEN {"info_missing"} ELSE {})
@@ -295,7 +322,8 @@ LocalRules(kind, o, root) ==
           (IF ~HasStr(o, "title") THEN {"title_missing"} ELSE {})
           \cup (IF ~HasStr(o, "version") THEN {"version_missing"} ELSE {})
      [] kind = "license" -> IF ~HasStr(o, "name") THEN {"name_missing"} ELSE {}
-     [] kind = "externalDocs" -> IF ~HasStr(o, "url") THEN {"url_missing"} ELSE {}
+     [] kind = "externalDocs" -> IF ~HasStr(o, "url") THEN {"url_missing"}
+                                 ELSE IF BadUrl(StrOf(o, "url")) THEN {"url_malformed"} ELSE {}
      [] kind = "server" ->
           IF ~HasStr(o, "url") THEN {"url_missing"}
           ELSE IF ~Analysable(StrOf(o, "url")) THEN {}
@@ -332,14 +360,14 @@ LocalRules(kind, o, root) ==
           \cup (IF StrOf(o, "in") \notin {"path", "query", "header", "cookie"} THEN {"in_invalid"}
                 ELSE ParamLikeRules(o, StrOf(o, "in"))
                      \cup (IF StrOf(o, "in") = "path" /\ ~IsTrue(o, "required") THEN {"path_not_required"} ELSE {}))
-          \cup ExampleRules(o, root)
+          \cup ExampleRules(o, root, mode)
      [] kind = "header" ->
           (IF Has(o, "name") THEN {"header_has_name"} ELSE {})
           \cup (IF Has(o, "in") THEN {"header_has_in"} ELSE {})
-          \cup ParamLikeRules(o, "header") \cup ExampleRules(o, root)
+          \cup ParamLikeRules(o, "header") \cup ExampleRules(o, root, mode)
      [] kind = "requestBody" -> IF ~(Has(o, "content") /\ IsO(Get(o, "content"))) THEN {"content_missing"} ELSE {}
      [] kind = "response" -> IF ~(Has(o, "description") /\ IsS(Get(o, "description"))) THEN {"description_missing"} ELSE {}
-     [] kind = "mediaType" -> ExampleRules(o, root)
+     [] kind = "mediaType" -> ExampleRules(o, root, mode)
      [] kind = "encoding" ->
           IF HasStr(o, "style") /\ ~LegalStyle("query", StrOf(o, "style"), ExplodeOf(o, "query")) THEN {"bad_style"} ELSE {}
      [] kind = "schema" ->
@@ -348,7 +376,7 @@ LocalRules(kind, o, root) ==
           \cup (IF HasStr(o, "type") /\ TypeTag(ty) = "?" THEN {"unknown_type"} ELSE {})
           \cup (IF ty = "array" /\ ~Has(o, "items") THEN {"array_without_items"} ELSE {})
           \cup (IF Has(o, "default") /\ ~Conforms(o, Get(o, "default"), root) THEN {"default_mismatch"} ELSE {})
-          \cup (IF Has(o, "example") /\ ~Conforms(o, Get(o, "example"), root) THEN {"example_mismatch"} ELSE {})
+          \cup (IF Has(o, "example") /\ ~ConformsM(o, Get(o, "example"), root, mode) THEN {"example_mismatch"} ELSE {})
           \cup (IF HasStr(o, "format") /\ TypeTag(ty) \in {"s", "n"} /\ StrOf(o, "format") \notin KnownFormats(ty)
                 THEN {"unknown_format"} ELSE {})
           \cup (IF ty = "string" /\ HasStr(o, "pattern") /\ Analysable(StrOf(o, "pattern"))
@@ -381,6 +409,7 @@ LocalRules(kind, o, root) ==
           \cup (IF needTok /\ ~HasStr(o, "tokenUrl") THEN {"flow_tokenurl_missing"} ELSE {})
           \cup (IF ~needTok /\ HasStr(o, "tokenUrl") THEN {"flow_tokenurl_forbidden"} ELSE {})
           \cup (IF ~(Has(o, "scopes") /\ IsO(Get(o, "scopes"))) THEN {"flow_scopes_missing"} ELSE {})
+          \cup (IF \E u \in {"authorizationUrl", "tokenUrl", "refreshUrl"} : BadUrl(StrOf(o, u)) THEN {"url_malformed"} ELSE {})
      [] OTHER -> {}
 
 ExtraFields(kind, o) == IF kind \in FixedKinds THEN {k \in Keys(o) : k \notin Known(kind) /\ ~IsExt(k)} ELSE {}
@@ -390,10 +419,16 @@ RefViol(kind, x, at, via, root) ==
    {VF(IF IsExt(k) THEN "ref_ext_sibling" ELSE "ref_sibling", kind, at, via, k) : k \in Keys(x) \ {"$ref"}}
    \cup (IF ~Resolves(root, x, SectionOf(kind)) THEN {V("dangling_ref", kind, at, via)} ELSE {})
 
+(* null where a member of an array or map has to be an object of one of these kinds.  Left open: a null Media    *)
+(* Type, Encoding or Path Item (the library reads them as "nothing said": Paths.Validate, MediaType.Validate and  *)
+(* Encoding.Validate accept nil on purpose), and null for a single member (the same as the member being absent). *)
+NullRefused == {"server", "tag", "serverVariable", "schema", "parameter", "header", "requestBody", "response",
+                "securityScheme", "example", "link", "callback"}
 RECURSIVE ViolAt(_, _, _, _, _)
 ViolAt(kind, o, at, via, root) ==
    LET site(e, x, at2, via2) ==
-          IF ~IsO(x) THEN {}
+          IF IsZ(x) THEN (IF e.mode \in {"arr", "map"} /\ e.kind \in NullRefused THEN {V("null_member", e.kind, at2, via2)} ELSE {})
+          ELSE IF ~IsO(x) THEN {}
           ELSE IF e.ref /\ IsRef(x) THEN RefViol(e.kind, x, at2, via2, root)
           ELSE ViolAt(e.kind, x, at2, via2, root)
        edge(e) ==
@@ -410,7 +445,7 @@ ViolAt(kind, o, at, via, root) ==
                  ELSE {}
             [] e.mode = "self" ->
                  UNION {IF IsExt(o.f[i].k) THEN {} ELSE site(e, o.f[i].v, Append(at, o.f[i].k), via2) : i \in DOMAIN o.f}
-   IN {V(r, kind, at, via) : r \in LocalRules(kind, o, root)}
+   IN {V(r, kind, at, via) : r \in LocalRules(kind, o, root, ModeOf(via))}
       \cup {VF("extra_field", kind, at, via, k) : k \in ExtraFields(kind, o)}
       \cup UNION {edge(e) : e \in Edges(kind)}
 
@@ -455,8 +490,12 @@ AllowedBy(field, opts) == field # "" /\ \E opt \in opts : AllowField(opt) = fiel
 (* Prohibit/AllowExt  Prohibit/AllowExtensionsWithRef.  Options are applied in the order given; the     *)
 (* contract: the LAST setting of each switch wins and no option touches another switch.  Eff(seq) is    *)
 (* the state a sequence leaves behind, named by the flip options in force (+ the allowed sibling fields).*)
+(* RxAny/RxStd  SetRegexCompiler(a compiler that accepts every expression) / SetRegexCompiler(nil): the   *)
+(* pattern rule is "the pattern compiles with the compiler in force".                                    *)
+(* "@ctx" as the first element is not an option: the options that follow are handed over in the context *)
+(* (WithValidationOptions) instead of as arguments of Validate; the contract is the same.               *)
 Switches == {<<"DisEx", "EnEx">>, <<"DisDef", "EnDef">>, <<"DisPat", "EnPat">>, <<"EnFmt", "DisFmt">>,
-             <<"Prohibit", "AllowExt">>}
+             <<"Prohibit", "AllowExt">>, <<"RxAny", "RxStd">>}
 LastIdx(seq, o) == IF \E i \in DOMAIN seq : seq[i] = o
                    THEN CHOOSE i \in DOMAIN seq : seq[i] = o /\ \A j \in DOMAIN seq : seq[j] = o => j <= i
                    ELSE 0
@@ -472,24 +511,32 @@ SubsetSeq(i) == SelectSeq(OptOrder, LAMBDA o : \E j \in DOMAIN OptOrder :
 (* further sequences, with the reset options: each reset alone; flip then reset and reset then flip of  *)
 (* the same switch; flip of one switch followed by the reset of every other; flip, reset, flip           *)
 SwitchSeq == <<<<"DisEx", "EnEx">>, <<"DisDef", "EnDef">>, <<"DisPat", "EnPat">>, <<"EnFmt", "DisFmt">>,
-               <<"Prohibit", "AllowExt">>>>
+               <<"Prohibit", "AllowExt">>, <<"RxAny", "RxStd">>>>
+NSw == Len(SwitchSeq)
+CtxSeqs == <<<<"@ctx">>>> \o [k \in 1..NSw |-> <<"@ctx", SwitchSeq[k][1]>>]
+           \o << <<"@ctx", "AllowDesc">>, <<"@ctx", "DisEx", "EnFmt", "Prohibit">>, <<"@ctx", "DisEx", "EnEx">> >>
+           \o << <<"RxAny", "DisPat">> >>
 RECURSIVE Flatten(_)
 Flatten(ss) == IF ss = <<>> THEN <<>> ELSE Head(ss) \o Flatten(Tail(ss))
 ResetSeqs ==
-   [k \in 1..5 |-> <<SwitchSeq[k][2]>>]
-   \o [k \in 1..5 |-> <<SwitchSeq[k][1], SwitchSeq[k][2]>>]
-   \o [k \in 1..5 |-> <<SwitchSeq[k][2], SwitchSeq[k][1]>>]
-   \o [k \in 1..5 |-> <<SwitchSeq[k][1], SwitchSeq[k][2], SwitchSeq[k][1]>>]
-   \o Flatten([k \in 1..5 |-> SelectSeq([m \in 1..5 |-> <<SwitchSeq[k][1], SwitchSeq[m][2]>>],
+   [k \in 1..NSw |-> <<SwitchSeq[k][2]>>]
+   \o [k \in 1..NSw |-> <<SwitchSeq[k][1], SwitchSeq[k][2]>>]
+   \o [k \in 1..NSw |-> <<SwitchSeq[k][2], SwitchSeq[k][1]>>]
+   \o [k \in 1..NSw |-> <<SwitchSeq[k][1], SwitchSeq[k][2], SwitchSeq[k][1]>>]
+   \o Flatten([k \in 1..NSw |-> SelectSeq([m \in 1..NSw |-> <<SwitchSeq[k][1], SwitchSeq[m][2]>>],
                                          LAMBDA q : q[2] # SwitchSeq[k][2])])
+   \o <<<<"RxAny">>>>
+   \o CtxSeqs
 NOptSets == NSubsets + Len(ResetSeqs)
+(* no option at all reaches Validate (the empty sequence, or an empty hand-over through the context) *)
+NoOptionGiven(seq) == \A i \in DOMAIN seq : seq[i] = "@ctx"
 OptSeq(i) == IF i <= NSubsets THEN SubsetSeq(i) ELSE ResetSeqs[i - NSubsets]
 OptSet(i) == Eff(OptSeq(i))
 
 Enabled(v, opts) ==
    CASE v.rule \in {"example_mismatch", "examples_mismatch"} -> "DisEx" \notin opts
      [] v.rule = "default_mismatch" -> "DisDef" \notin opts
-     [] v.rule = "bad_pattern"      -> "DisPat" \notin opts
+     [] v.rule = "bad_pattern"      -> "DisPat" \notin opts /\ "RxAny" \notin opts
      [] v.rule = "unknown_format"   -> "EnFmt" \in opts
      [] v.rule = "ref_sibling"      -> ~AllowedBy(v.field, opts)
      [] v.rule = "ref_ext_sibling"  -> "Prohibit" \in opts
